@@ -81,7 +81,8 @@ def _abstract_expr(sym, mod, e, params):
 def extract_binop_table(ctx, sym):
     mod = ctx.repo.module(OPS)
     expr = mod.top_assign('VALID_BINOP_TYPES')
-    table = literal(expr, resolve_consts=False)
+    from ..tables import table_by_execution
+    table = table_by_execution(sym, mod, 'VALID_BINOP_TYPES')
     ctx.require(isinstance(table, dict) and table, "VALID_BINOP_TYPES is not a literal dict")
     return mod, expr, table
 
